@@ -35,11 +35,8 @@ def plan(tier: str, seed: int):
                 Modes={"all", "once"}, MinLen=4)
     d = deep["MaxSteps"] + 2
     if tier == "quick":
-        # several small JVMs: on the shared, oversubscribed box one process only gets one thread's share of a core
-        return [("raw publish / publish_value, 3 steps", _c(SKs={"plain", "behavior"}, SrcIds={1}), None, None),
-                ("raw replay(1) / replay(), 3 steps", _c(SKs={"replay"}, SrcIds={1}), None, None),
-                ("ref_count, 3 steps", _c(Wrs={"ref_count"}, SrcIds={1, 3}), None, None),
-                ("auto_connect(0..2), 3 steps", _c(Wrs={"auto"}, Ns={0, 1, 2}, SrcIds={3}), None, None),
+        return [("raw connectables, 3 steps", _c(SrcIds={1}), None, None),
+                ("ref_count/auto_connect, 3 steps", _c(Wrs={"ref_count", "auto"}, Ns={0, 1, 2}, SrcIds={3}), None, None),
                 ("mapper forms, 3 steps", _c(Mps={"id", "dup", "take1"}, SrcIds={1}), None, None),
                 ("simulate all variants", _c(Bs={0, 1, 2, 99}, Ws={1, 2, 99}, **deep), "num=500", d)]
     nsim = 4000
@@ -47,7 +44,7 @@ def plan(tier: str, seed: int):
     return [("raw connectables, 4 steps", _c(MaxSteps=4, NSubs=2, SrcIds={1, 3}, StaleDisc=True), None, None),
             ("ref_count/auto_connect, 5 steps", _c(Wrs={"ref_count", "auto"}, Ns={0, 1, 2, 3}, MaxSteps=5, NSubs=3, SrcIds={1, 3}),
              None, None),
-            ("self-unsubscribing subscribers, 4 steps", _c(Wrs={"none", "ref_count", "auto"}, Ns={1, 2}, MaxSteps=4, SrcIds={4, 1},
+            ("self-unsubscribing subscribers, 3 steps", _c(Wrs={"none", "ref_count", "auto"}, Ns={1, 2}, SrcIds={4, 1},
                                                           Modes={"all", "once"}), None, None),
             ("mapper forms, 4 steps", _c(Mps={"id", "dup", "take1"}, MaxSteps=4, NSubs=3, SrcIds={1, 3, 5}), None, None),
             ("replay windows, 4 steps", _c(SKs={"replay"}, Bs={0, 2, 99}, Ws={1, 2}, Wrs={"none", "ref_count"}, MaxSteps=4,
@@ -110,7 +107,7 @@ def run(tier: str) -> int:
                        seed=(ck.seed + 11) if sim else None, xmx="2g", env_extra=JVM, allow_violation=False)
     lines = []
     t0 = time.time()
-    with ThreadPoolExecutor(6 if tier == "quick" else 4) as ex:
+    with ThreadPoolExecutor(4) as ex:
         for j, res in zip(jobs, ex.map(one, jobs)):
             ck.add_tlc(res, j[0] + (" [simulation]" if j[2] else " [exhaustive]"))
             lines += res.lines
